@@ -23,6 +23,21 @@ type W struct {
 	pat     byte
 	// opFacts are attached to a violation raised by a panic (library crash) during the current operation.
 	opFacts map[string]string
+	// cmp is the comparison digest of flavour-independent results (C18 cross-build differential).
+	cmp    uint64
+	cmpSet bool
+}
+
+func (w *W) cmpMix(b []byte) {
+	if !w.cmpSet {
+		w.cmp, w.cmpSet = 0xcbf29ce484222325, true
+	}
+	for _, c := range b {
+		w.cmp ^= uint64(c)
+		w.cmp *= 0x100000001b3
+	}
+	w.cmp ^= uint64(len(b)) + 0x9e37
+	w.cmp *= 0x100000001b3
 }
 
 func newW(prop string, t *simrt.Tape, trace bool) *W {
